@@ -1,5 +1,6 @@
 import MgpuProofs.C02ArbLemmas
 import MgpuProofs.Props.C02WfCU
+import MgpuProofs.Props.C02Live
 /-! # C02 — the issue gate derived from the real issue path (`Arbitrate` + `DoIssue`)
 
 The wavefront theorems (`wavefront_timing_equals_emulator`, `cu_wavefronts_equal_emulator`, …) hold for
@@ -293,5 +294,71 @@ example : cycleActs unitCap
     { demoCycle 0 with layout := [[0]] } = [.internal 0] := by
   decide +kernel
 
-end C02.Arb
+/-! ## the gate opens: a lone wavefront and a free unit -/
 
+/-- the four SIMD pools of a compute unit holding one wavefront -/
+def loneCycle (last : Nat) (hz : Nat → Bool) (load : Nat → Nat) : Cycle :=
+  { last := last, layout := [[0], [], [], []], hz := hz, load := load }
+
+/-- **lone_wavefront_issues_when_unit_free.** The liveness theorems say "as soon as the issue gate is
+    open". For the real issue path that is: the wavefront is `WfReady` with a decoded instruction, the
+    scoreboard reports no hazard, and the instruction is special or its unit has room — then, wherever
+    the round-robin pointer stands, that `DoIssue` issues it. -/
+theorem lone_wavefront_issues_when_unit_free (cap : Nat → Nat) (s : TState) (i : Inst) (last : Nat) (hl : last < 4)
+    (hz : Nat → Bool) (load : Nat → Nat) (hph : s.ph = .ready) (hi : s.toIssue = some i) (hhz : hz 0 = false)
+    (hroom : unitOf i.kind = 6 ∨ load (unitOf i.kind) < cap (unitOf i.kind)) :
+    cycleEvs cap [s] (loneCycle last hz load) = [(0, .issue)] := by
+  have hv : poolsOf [s] hz [[0], [], [], []] = [[view 0 false s], [], [], []] := by
+    simp [poolsOf, hhz]
+  have hel : eligible (view 0 false s) = true := by
+    simp [eligible, view, hph, hi, stateCode]
+  have hu : (view 0 false s).unit = unitOf i.kind := by simp [view, hi]
+  have harb : (arbitrate last [[view 0 false s], [], [], []]).1 = [view 0 false s] := by
+    match last, hl with
+    | 0, _ => simp [arbitrate, List.range, List.range.loop, pickPool, hel]
+    | 1, _ => simp [arbitrate, List.range, List.range.loop, pickPool, hel]
+    | 2, _ => simp [arbitrate, List.range, List.range.loop, pickPool, hel]
+    | 3, _ => simp [arbitrate, List.range, List.range.loop, pickPool, hel]
+  simp only [cycleEvs, cycleActs, loneCycle, hv, harb, doIssue, hu]
+  by_cases h6 : unitOf i.kind = 6
+  · simp [h6, actEvs, view]
+  · rcases hroom with h | h
+    · exact absurd h h6
+    · simp [h6, h, actEvs, view]
+
+/-- **wavefront_never_stuck_under_real_scheduler.** `wavefront_never_stuck` with the gate discharged:
+    in every reachable unfinished state of a hazard-free run some compute-unit event is possible, and
+    when that event is `issue`, every `DoIssue` in which the scoreboard reports no hazard and the
+    instruction's unit has room (or the instruction is special) performs it. No wavefront is wedged by
+    the arbiter. -/
+theorem wavefront_never_stuck_under_real_scheduler (P : Prog) (hP : P.WF) (hNW : P.NoWrap) (gate : TState → Inst → Bool)
+    (pc : Nat) (regs : RF) (mem : Mem) (fuel : Nat)
+    (hhaz : hazardFreeRun P fuel (einit pc regs mem, {}) = true)
+    (evs : List Ev) (T : TState) (hrun : trun P gate (tinit pc regs mem) evs = some T) (hnd : T.ph ≠ .done) :
+    ∃ e T', e ∈ greedyOrder ∧ isEnv e = false ∧ tstep P anyGate T e = some T' ∧
+      (e = .issue → ∃ i, T.toIssue = some i ∧ ∀ (cap : Nat → Nat) (last : Nat) (hz : Nat → Bool) (load : Nat → Nat),
+        last < 4 → hz 0 = false → (unitOf i.kind = 6 ∨ load (unitOf i.kind) < cap (unitOf i.kind)) →
+        cycleEvs cap [T] (loneCycle last hz load) = [(0, .issue)]) := by
+  obtain ⟨e, T', hm, hne, ht⟩ := wavefront_never_stuck P hP hNW gate pc regs mem fuel hhaz evs T hrun hnd
+  refine ⟨e, T', hm, hne, ht, ?_⟩
+  intro he
+  subst he
+  simp only [tstep] at ht
+  cases hi : T.toIssue with
+  | none => rw [hi] at ht; cases ht
+  | some i =>
+    rw [hi] at ht
+    simp only at ht
+    split at ht
+    · rename_i hc
+      exact ⟨i, rfl, fun cap last hz load hl hhz hroom =>
+        lone_wavefront_issues_when_unit_free cap T i last hl hz load hc.1 hi hhz hroom⟩
+    · cases ht
+
+/-- non-vacuity: the decoded first instruction of the demo wavefront, pointer at every position; a full
+    scalar unit keeps the gate shut -/
+example : (List.range 4).all (fun last => cycleEvs unitCap (demoDecoded.take 1) (loneCycle last (fun _ => false) (fun _ => 3)) == [(0, .issue)]) = true ∧
+    cycleEvs unitCap (demoDecoded.take 1) (loneCycle 2 (fun _ => false) (fun _ => 4)) = [] := by
+  decide +kernel
+
+end C02.Arb
